@@ -158,8 +158,11 @@ def run(patch, props, keep=False):
     for p in props:
         r = subprocess.run([os.path.join(VERIF, "check"), p], env=env, stdout=subprocess.PIPE, stderr=subprocess.STDOUT, text=True)
         print(r.stdout.rstrip())
-        print("[mut] %s exit=%d" % (p, r.returncode))
-        rc = rc or r.returncode
+        code = r.returncode
+        if code == 1 and "VIOLATION property=" not in r.stdout:
+            code = 4
+        print("[mut] %s exit=%d" % (p, code))
+        rc = rc or code
     # restore scratch (changed files get new mtimes -> rebuilt next time)
     sync()
     return rc
@@ -176,7 +179,7 @@ def run_all(pid, only=None):
         res[f] = rc
     print("\n== summary %s: %d/%d detected" % (pid, sum(1 for v in res.values() if v == 1), len(res)))
     for f, rc in res.items():
-        print("   %-40s %s" % (f, {1: "DETECTED", 0: "MISSED", 3: "does-not-compile", 2: "patch-failed"}.get(rc, rc)))
+        print("   %-40s %s" % (f, {1: "DETECTED", 0: "MISSED", 3: "does-not-compile", 2: "patch-failed/checker-error", 4: "checker-crashed"}.get(rc, rc)))
     return 0 if all(v == 1 for v in res.values()) else 1
 
 
